@@ -386,6 +386,19 @@ def literalsS : List (String × List (String × String × Bool)) :=
 def keysDistinct {β : Type} (t : List (String × β)) : Bool :=
   (t.map (·.1)).eraseDups.length == t.length
 
+def rncS : List (String × List String) := groupAdj Gen.c15RncValues
+
+/-- enumerated values the writer can produce that docs/gir-1.2.rnc does not allow for that attribute:
+    (element, attribute, value) with the attribute an enumeration of the schema, the value not in it
+    (attributes that can also carry free-form text are not judged) -/
+def notInSchemaG {α : Type} [BEq α] (values : List (α × List (α × α × α))) (dynamic : List (α × List α))
+    (rnc : List (α × List α)) : List (α × α × α) :=
+  values.flatMap fun g =>
+    let dyn := entries dynamic g.1
+    g.2.filterMap fun x =>
+      let allowed := entries rnc x.1
+      if allowed.isEmpty || allowed.contains x.2.1 || dyn.contains x.1 then none else some (g.1, x.1, x.2.1)
+
 def codeVisit (v : Visit String) : Visit Nat := ⟨code v.elem, code v.state, v.hasNode⟩
 def codeOffence (o : Offence String) : Offence Nat := ⟨code o.state, code o.parent, code o.child, o.kind⟩
 def code2 (x : String × String) : Nat × Nat := (code x.1, code x.2)
@@ -407,9 +420,10 @@ def tablesCoded : List (String × Bool) := [
   ("c15CAcceptG", Gen.c15CAcceptG == codeG codeRow acceptS),
   ("c15CFetchedG", Gen.c15CFetchedG == codeG code fetchedS),
   ("c15CLiteralsG", Gen.c15CLiteralsG == codeG (fun l => (code l.1, code l.2.1, l.2.2)) literalsS),
+  ("c15RncValuesG", Gen.c15RncValuesG == codeG code rncS),
   -- every key has ONE group (`entries` reads the first): the flat tables are sorted / state-major
   ("keys distinct", keysDistinct childrenS && keysDistinct attrsS && keysDistinct valuesS && keysDistinct dynamicS
-      && keysDistinct acceptS && keysDistinct fetchedS && keysDistinct literalsS)]
+      && keysDistinct acceptS && keysDistinct fetchedS && keysDistinct literalsS && keysDistinct rncS)]
 
 /-! for the driver and `#eval`: the walk and the offences in readable form -/
 
@@ -429,5 +443,7 @@ def unfetched : List (String × String × String) := unfetchedG attrsS fetchedS 
 
 def offValues : List (String × String × String × String) :=
   offValuesG valuesS dynamicS literalsS "0" "1" handlersOf
+
+def notInSchema : List (String × String × String) := notInSchemaG valuesS dynamicS rncS
 
 end GIVerif.GirConsume
